@@ -65,9 +65,16 @@ def task(t, res):
         seq = [x for k in range(max(map(len, per))) for x in (p[k] for p in per if k < len(p))]
         if t["order"] == "reversed":
             seq = seq[::-1]
+        from ..runner import Result
+
+        sub = Result()
         for (r, c, b) in seq:
-            task(dict(shape=(r, c), range=(b, b + 1), via_solved=1 if b % 4 == 0 else None, nosample=True), res)
+            task(dict(shape=(r, c), range=(b, b + 1), via_solved=1 if b % 4 == 0 else None, nosample=True), sub)
             res.count("mixed_sequence_graphs")
+        res.evaluations += sub.evaluations
+        res.distinct |= sub.distinct
+        for f in sub.fails:  # own keys: must not be shadowed by a same-key failure of an ordinary task in a poisoned worker
+            res.fail(f["key"] + "|in_mixed_shape_sequence", f"shapes {t['mixed']} interleaved ({t['order']}) in one fresh interpreter: " + f["what"], f["replay"])
         return
     r, c = t["shape"]
     cells = R.cells(r, c)
